@@ -154,7 +154,7 @@ def main():
             own = re.sub(r"^R\d", "", sid.split("-")[0])
             # the two slowest checks (all-mode output evaluation) are run only for the properties they belong to
             return [p for p in props if p not in ("C10", "C12") or own in ("C10", "C11", "C12")]
-        with cf.ThreadPoolExecutor(6) as ex:
+        with cf.ThreadPoolExecutor(7) as ex:
             for r in ex.map(lambda s: run_one(s, props_for(s)), ids):
                 own = re.sub(r"^R\d", "", r["id"].split("-")[0])
                 status = "CAUGHT(own)" if own in r["fired"] else ("caught(other)" if r["fired"] else ("ERROR" if r["errors"] else "MISSED"))
